@@ -21,7 +21,7 @@ Definition ex_W : mat Qc := fun r c => if Nat.eqb c 3 then (ex_X r 0%nat / qz 10
 Definition ex_w : vec Qc := fun c => if Nat.eqb c 3 then qz 100 else Q2Qc 0.
 Definition ex_s : vec Qc := fun _ => qz 10.
 
-Definition ex_run := lmds_embed 6 1 ex_lm ex_dist ex_W ex_w ex_s.
+Definition ex_run := lmds_embed 6 1 keep_all ex_lm ex_dist ex_W ex_w ex_s.
 
 Definition ex_ws : list (nat * vec Qc) :=
   match ex_run with LOk ws => ws | LOOB _ _ _ => [] end.
@@ -49,8 +49,9 @@ Example lmds_reproduces_euclidean_nonvacuous :
   meq 4 1 (mmul 4 (lmds_matrix ex_lm ex_dist) (sel_vecs 4 1 ex_W))
           (mmul 1 (sel_vecs 4 1 ex_W) (mdiag (sel_vals 4 1 ex_w))) /\
   lm_rank_d 4 1 (lmds_matrix ex_lm ex_dist) (sel_vecs 4 1 ex_W) (sel_vals 4 1 ex_w) /\
-  (forall c, c < 1 -> sel_vals 4 1 ex_w c <> 0%F) /\
   (forall c, c < 1 -> (ex_s c * ex_s c)%F = sel_vals 4 1 ex_w c) /\
+  (forall c, c < 1 -> @keep_all c = true -> sel_vals 4 1 ex_w c <> 0%F) /\
+  (forall c, c < 1 -> @keep_all c = false -> ex_s c = 0%F) /\
   landmarks_span 6 1 ex_lm ex_X.
 Proof.
   split. { repeat constructor; cbn; intuition lia. }
@@ -67,9 +68,10 @@ Proof.
   split. { exact ex_run_ok. }
   split. { apply meq_by_compute. vm_compute. reflexivity. }
   split. { unfold lm_rank_d. apply meq_by_compute. vm_compute. reflexivity. }
-  split. { intros c Hc. assert (c = 0) by lia. subst c. intros H.
-           apply (f_equal this) in H. vm_compute in H. discriminate. }
   split. { intros c Hc. assert (c = 0) by lia. subst c. apply qeqb_ok. vm_compute. reflexivity. }
+  split. { intros c Hc _. assert (c = 0) by lia. subst c. intros H.
+           apply (f_equal this) in H. vm_compute in H. discriminate. }
+  split. { intros c Hc H. discriminate H. }
   intros a Ha Hnin.
   assert (Ha' : a = 4 \/ a = 5).
   { destruct (Nat.eq_dec a 4) as [|n4]; [tauto|]. destruct (Nat.eq_dec a 5) as [|n5]; [tauto|].
@@ -95,13 +97,63 @@ Qed.
 
 (* F21: N = 6, three landmarks, target_dimension = 5 (< N: accepted by the constructor's
    InRange(1, N)) — the model leaves the eigenvector matrix whatever the solver answered *)
+(* intrinsic dimension 1 < target dimension 2 (the case finding F42 is about): the second selected
+   eigenvalue is 0, its column is dropped (keep 0 = false; columns are in ascending order, so the
+   null one comes first), the sqrt oracle answers 0 for it *)
+Definition ex2_W : mat Qc := fun r c => if Nat.eqb c 3 then (ex_X r 0%nat / qz 10)%Qc
+                                        else if Nat.eqb c 2 then qfrac 1 2 else Q2Qc 0.
+Definition ex2_w : vec Qc := fun c => if Nat.eqb c 3 then qz 100 else Q2Qc 0.
+Definition ex2_s : vec Qc := fun c => if Nat.eqb c 1 then qz 10 else Q2Qc 0.
+Definition ex2_keep : nat -> bool := fun c => Nat.eqb c 1.
+Definition ex2_run := lmds_embed 6 2 ex2_keep ex_lm ex_dist ex2_W ex2_w ex2_s.
+Definition ex2_ws : list (nat * vec Qc) := match ex2_run with LOk ws => ws | LOOB _ _ _ => [] end.
+
+Lemma ex2_run_ok : ex2_run = LOk ex2_ws.
+Proof.
+  unfold ex2_ws. destruct ex2_run eqn:E; [reflexivity|]. exfalso.
+  assert (H : exists ws, ex2_run = LOk ws).
+  { apply lmds_embed_total; [|cbn; lia]. repeat constructor. }
+  destruct H as [ws H]. rewrite H in E. discriminate.
+Qed.
+
+Example ex2_embedding :
+  map (fun o => match o with Some [u; v] => Some (this u, this v) | _ => None end) (emb_table 6 2 ex2_ws)
+  = [Some (0#1, 7#1); Some (0#1, -7#1); Some (0#1, 1#1); Some (0#1, -1#1); Some (0#1, 3#1);
+     Some (0#1, 0#1)]%Q.
+Proof. vm_compute. reflexivity. Qed.
+
+Example lmds_reproduces_euclidean_nonvacuous_dropped_column :
+  NoDup ex_lm /\
+  @of_nat Qc _ (length ex_lm) <> 0%F /\ @two Qc _ <> 0%F /\
+  (forall a b, a < 6 -> b < 6 -> (ex_dist a b * ex_dist a b)%F = lm_sqdist 1 ex_X a b) /\
+  ex2_run = LOk ex2_ws /\
+  meq 4 2 (mmul 4 (lmds_matrix ex_lm ex_dist) (sel_vecs 4 2 ex2_W))
+          (mmul 2 (sel_vecs 4 2 ex2_W) (mdiag (sel_vals 4 2 ex2_w))) /\
+  lm_rank_d 4 2 (lmds_matrix ex_lm ex_dist) (sel_vecs 4 2 ex2_W) (sel_vals 4 2 ex2_w) /\
+  (forall c, c < 2 -> (ex2_s c * ex2_s c)%F = sel_vals 4 2 ex2_w c) /\
+  (forall c, c < 2 -> ex2_keep c = true -> sel_vals 4 2 ex2_w c <> 0%F) /\
+  (forall c, c < 2 -> ex2_keep c = false -> ex2_s c = 0%F) /\
+  landmarks_span 6 1 ex_lm ex_X.
+Proof.
+  destruct lmds_reproduces_euclidean_nonvacuous as [H1 [H2 [H3 [H4 [_ [_ [_ [_ [_ [_ H10]]]]]]]]]].
+  split; [exact H1|]. split; [exact H2|]. split; [exact H3|]. split; [exact H4|].
+  split. { exact ex2_run_ok. }
+  split. { apply meq_by_compute. vm_compute. reflexivity. }
+  split. { unfold lm_rank_d. apply meq_by_compute. vm_compute. reflexivity. }
+  split. { intros c Hc. destruct c as [|[|c]]; [| |lia]; apply qeqb_ok; vm_compute; reflexivity. }
+  split. { intros c Hc Hk. destruct c as [|[|c]]; [discriminate Hk| |lia].
+           intros H. apply (f_equal this) in H. vm_compute in H. discriminate. }
+  split. { intros c Hc Hk. destruct c as [|[|c]]; [reflexivity|discriminate Hk|lia]. }
+  exact H10.
+Qed.
+
 (* ratio = 1: all six samples are landmarks, in a shuffled order *)
 Definition ex_perm : list nat := [3; 1; 5; 0; 2; 4].
 
 Example ratio_one_nonvacuous :
   Permutation ex_perm (seq 0 6) /\
   (forall a b, a < 6 -> b < 6 -> ex_dist a b = ex_dist b a) /\
-  exists ws, lmds_embed 6 1 ex_perm ex_dist ex_W ex_w ex_s = LOk ws.
+  exists ws, lmds_embed 6 1 keep_all ex_perm ex_dist ex_W ex_w ex_s = LOk ws.
 Proof.
   split.
   { cbn [seq]. apply NoDup_Permutation.
@@ -126,6 +178,6 @@ Proof. eexists. reflexivity. Qed.
 
 Local Open Scope string_scope.
 Example lmds_bounds_witness :
-  lmds_embed 6 5 [0; 1; 2] ex_dist ex_W ex_w ex_s =
+  lmds_embed 6 5 keep_all [0; 1; 2] ex_dist ex_W ex_w ex_s =
   LOOB "solver.eigenvectors().rightCols(target_dimension)" 5 3.
 Proof. reflexivity. Qed.
